@@ -67,7 +67,7 @@ Ids(n) == [i \in 1..n |-> ID]
 (* the callee expression up to (not including) the parenthesis of call 1 *)
 Callee(k, con) ==
   CASE k = "iife"      -> << NL, CS(3), ID, LP(3), NL >>                      \* func(a ...any) {\n next(...)\n }
-    [] k = "goroutine" -> << NL, CS(3), ID, LP(3), NL, CS(8), ID, LP(8), NL >> \* func() {\n next(...)\n close(done)\n }
+    [] k = "goroutine" -> << NL, CS(8), ID, LP(8), NL, CS(3), ID, LP(3), NL >> \* func() {\n defer close(done)\n next(...)\n }
     [] con = "litrecv" -> << CS(2), ID, LP(2), LAM >> \o (IF k \in MethodLike THEN << ID >> ELSE Ids(NIdents(k)))
                                                                              \* mk("lit").M   |  pick("lit", f)
     [] con = "mlchain" -> IF k \in MethodLike THEN Ids(NIdents(k) - 1) \o << NL, ID >>      \* T{V: 1}.\n M
